@@ -78,22 +78,27 @@ static int do_recv(void) {
 }
 
 // per shape: messages per sender (up to 2 senders) and receives per receiver (up to 2)
-static const int plan[][4] = {
+static int genplan[5];
+static const int plan[][5] = {
     {2, 0, 2, 0},  // 0: 1 sender x2
     {1, 1, 2, 0},  // 1: 2 senders x1
     {2, 1, 3, 0},  // 2: 2 senders, 3 messages (bounded: a sender meets a full buffer)
     {3, 0, 3, 0},  // 3: 1 sender x3 through capacity 2
     {2, 1, 2, 1},  // 4: multi channel: 2 senders, 2 receivers
     {3, 0, 2, 1},  // 5: multi channel: 1 sender x3, 2 receivers
+    {2, 2, 5, 0, 1},  // 6: multi channel: 3 senders (last column), one receiver: several senders parked on a full channel
+    {3, 3, 6, 0, 0},  // 7
+    {1, 2, 6, 0, 3},  // 8
 };
+#define PLAN(i) (genplan[2] ? genplan[i] : plan[shape][i])
 static void* sender(void* p) {
   int id = (int)(intptr_t)p;
-  for (int k = 1; k <= plan[shape][id - 1]; k++) do_send(id * 16 + k);
+  for (int k = 1; k <= PLAN(id == 3 ? 4 : id - 1); k++) do_send(id * 16 + k);
   return 0;
 }
 static void* receiver(void* p) {
   int id = (int)(intptr_t)p;
-  for (int k = 0; k < plan[shape][2 + id]; k++) received(id, do_recv());
+  for (int k = 0; k < PLAN(2 + id); k++) received(id, do_recv());
   return 0;
 }
 
@@ -183,7 +188,7 @@ int harness_main(void) {
   if (bc) fmc_focus(bc, sizeof *bc + 2 * sizeof(void*));
   if (ch == 2) { fiber_unbounded_channel_init(&uc, &sig); fmc_focus(uc.queue.tail, sizeof(mpsc_fifo_node_t)); }
   if (ch == 3) { fiber_unbounded_sp_channel_init(&usc, &sig); fmc_focus(usc.queue.tail, sizeof(spsc_node_t)); }
-  if (ch == 4) { mc = fiber_multi_channel_create(1); g_single_receiver = plan[shape][3] == 0; fmc_focus(mc, sizeof *mc + 2 * sizeof(void*)); }
+  if (ch == 4) { mc = fiber_multi_channel_create(1); g_single_receiver = PLAN(3) == 0; fmc_focus(mc, sizeof *mc + 2 * sizeof(void*)); }
   fmc_begin();
   if (ch >= 5) {
     nraise = fmc_param("raises", 2);
@@ -204,12 +209,25 @@ int harness_main(void) {
       for (int i = 0; i < ng; i++) fiber_detach(g[i]);
     rt_park_until_quiescent(sig_quiescent);
   }
-  fiber_t* f[4];
+  fiber_t* f[6];
   int nf = 0;
-  f[nf++] = fiber_create(STK, receiver, (void*)0);
-  if (plan[shape][3]) f[nf++] = fiber_create(STK, receiver, (void*)1);
+  int rlast = 0;
+  // -Dgen=K -Dsenders=S: every program of S senders with 1..K messages each and one receiver that takes
+  // them all, the receiver created before or after the senders: enumerated as cost-free inputs
+  int gen = fmc_param("gen", 0);
+  if (gen) {
+    int S = fmc_param("senders", 2), total = 0;
+    for (int i = 0; i < S; i++) total += genplan[i == 2 ? 4 : i] = 1 + fmc_input(gen);
+    genplan[2] = total;
+    rlast = fmc_input(2);
+    g_single_receiver = 1;
+  }
+  if (!rlast) f[nf++] = fiber_create(STK, receiver, (void*)0);
+  if (PLAN(3)) f[nf++] = fiber_create(STK, receiver, (void*)1);
   f[nf++] = fiber_create(STK, sender, (void*)1);
-  if (plan[shape][1]) f[nf++] = fiber_create(STK, sender, (void*)2);
+  if (PLAN(1)) f[nf++] = fiber_create(STK, sender, (void*)2);
+  if (PLAN(4)) f[nf++] = fiber_create(STK, sender, (void*)3);
+  if (rlast) f[nf++] = fiber_create(STK, receiver, (void*)0);
   fmc_yield();
   for (int i = 0; i < nf; i++)
     if (fiber_join(f[i], 0) != FIBER_SUCCESS) fmc_fail("channel harness: join failed");
